@@ -61,6 +61,7 @@ def check(ctx: Ctx):
     # the constructor's own list of times: a shared list lets times and members drift apart before writing (zip truncates)
     support.compose(ctx, col.check_fresh_derivations, keep=("FRESH",), site_filter=lambda s: "EmulsionTimeCourse.__init__" in s)
     support.check_field_types(ctx)
+    support.check_writers_total(ctx, (f"{EM}.Emulsion.to_file", f"{EM}.EmulsionTimeCourse.to_file", f"{TR}.DropletTrack.to_file", f"{TR}.DropletTrackList.to_file"))
     nonetest.check(ctx, _width_setter(m), "value", "the interface width")
     io.check_layouts(ctx)
     ctx.expect("IOAGREE", 52)
